@@ -20,7 +20,12 @@ def native_resolution(oracle, template, assign):
         if not t:
             res.append(None)
         else:
-            res.append(inv.get(t[0][1], ('other', t[0][1])))
+            hit = inv.get(t[0][1])
+            if hit is None and len(t[0]) > 2:
+                # the navigation target of a spread binder `..rest` is the whole spread pattern: it CONTAINS the binder's name
+                inside = [pid for off, pid in inv.items() if t[0][1] <= off < t[0][2]]
+                hit = inside[0] if len(inside) == 1 else None
+            res.append(hit if hit is not None else ('other', t[0][1]))
     return text, res, r
 
 
